@@ -34,39 +34,39 @@ type c14Chunk struct {
 
 type c14Req struct {
 	// request
-	Method    string     `json:"method"`
-	Scheme    string     `json:"scheme"`
-	URLHost   string     `json:"url_host"`
-	Host      string     `json:"host,omitempty"` // Request.Host override
-	Path      string     `json:"path"`
-	Query     string     `json:"query,omitempty"`
-	ForceQ    bool       `json:"force_q,omitempty"`
-	Fields    []c14Field `json:"fields,omitempty"`
-	Cookies   []string   `json:"cookies,omitempty"`
-	UA        string     `json:"ua,omitempty"`   // "" = leave to the Transport
-	BodyKind  int        `json:"body_kind"`      // 0 nil, 1 http.NoBody, 2 reader
-	Chunks    []int      `json:"chunks,omitempty"` // sizes returned by successive Reads
-	DeclLen   bool       `json:"decl_len,omitempty"`
-	EOFData   bool       `json:"eof_data,omitempty"` // last Read returns (n, io.EOF)
-	Trailers  []c14Field `json:"trailers,omitempty"`
-	TrEarly   bool       `json:"tr_early,omitempty"` // trailer values set before RoundTrip
-	StartMS   int        `json:"start_ms,omitempty"`
-	CliRead   int        `json:"cli_read"` // client's response-body read buffer
-	CliPause  bool       `json:"cli_pause,omitempty"`
+	Method   string     `json:"method"`
+	Scheme   string     `json:"scheme"`
+	URLHost  string     `json:"url_host"`
+	Host     string     `json:"host,omitempty"` // Request.Host override
+	Path     string     `json:"path"`
+	Query    string     `json:"query,omitempty"`
+	ForceQ   bool       `json:"force_q,omitempty"`
+	Fields   []c14Field `json:"fields,omitempty"`
+	Cookies  []string   `json:"cookies,omitempty"`
+	UA       string     `json:"ua,omitempty"`     // "" = leave to the Transport
+	BodyKind int        `json:"body_kind"`        // 0 nil, 1 http.NoBody, 2 reader
+	Chunks   []int      `json:"chunks,omitempty"` // sizes returned by successive Reads
+	DeclLen  bool       `json:"decl_len,omitempty"`
+	EOFData  bool       `json:"eof_data,omitempty"` // last Read returns (n, io.EOF)
+	Trailers []c14Field `json:"trailers,omitempty"`
+	TrEarly  bool       `json:"tr_early,omitempty"` // trailer values set before RoundTrip
+	StartMS  int        `json:"start_ms,omitempty"`
+	CliRead  int        `json:"cli_read"` // client's response-body read buffer
+	CliPause bool       `json:"cli_pause,omitempty"`
 	// handler script
-	Status    int        `json:"status"`
-	Early     int        `json:"early"` // >=0: send 103 with the first Early response fields
-	RFields   []c14Field `json:"rfields,omitempty"`
-	RChunks   []c14Chunk `json:"rchunks,omitempty"`
-	RDeclLen  bool       `json:"rdecl_len,omitempty"`
-	RTrailers []c14Field `json:"rtrailers,omitempty"`  // announced with a Trailer header
-	RTrStyle  int        `json:"rtr_style,omitempty"`  // 0 one comma list, 1 one Trailer value per name
+	Status     int        `json:"status"`
+	Early      int        `json:"early"` // >=0: send 103 with the first Early response fields
+	RFields    []c14Field `json:"rfields,omitempty"`
+	RChunks    []c14Chunk `json:"rchunks,omitempty"`
+	RDeclLen   bool       `json:"rdecl_len,omitempty"`
+	RTrailers  []c14Field `json:"rtrailers,omitempty"`  // announced with a Trailer header
+	RTrStyle   int        `json:"rtr_style,omitempty"`  // 0 one comma list, 1 one Trailer value per name
 	RPTrailers []c14Field `json:"rptrailers,omitempty"` // http2.TrailerPrefix
-	RPEarly   bool       `json:"rp_early,omitempty"`   // prefixed keys set before WriteHeader
-	RUnset    []string   `json:"runset,omitempty"`     // announced, never set
-	Order     int        `json:"order"`                // 0 read request then reply, 1 header+flush, read, body, 2 reply fully then read
-	SrvRead   int        `json:"srv_read"`
-	SrvMS     int        `json:"srv_ms,omitempty"`
+	RPEarly    bool       `json:"rp_early,omitempty"`   // prefixed keys set before WriteHeader
+	RUnset     []string   `json:"runset,omitempty"`     // announced, never set
+	Order      int        `json:"order"`                // 0 read request then reply, 1 header+flush, read, body, 2 reply fully then read
+	SrvRead    int        `json:"srv_read"`
+	SrvMS      int        `json:"srv_ms,omitempty"`
 }
 
 type c14Srv struct {
